@@ -102,6 +102,7 @@ Definition E_NOADDR := 5.      (* DialError cause ErrNoAddresses *)
 Definition E_NOGOOD := 6.      (* DialError cause ErrNoGoodAddresses *)
 Definition E_ALLFAILED := 7.   (* DialError cause ErrAllDialsFailed *)
 Definition E_MAXDIAL := 8.     (* "max dial attempts exceeded" *)
+Definition E_CLOSED := 9.      (* swarm.ErrConnClosed (addStream on a closed Conn) *)
 
 Inductive pc :=
 | PLoop                     (* NewStream: head of the for loop *)
@@ -123,16 +124,17 @@ Record thread := mkThread {
   t_allow : bool;     (* network.WithAllowLimitedConn *)
   t_force : bool;     (* network.WithForceDirectDial *)
   t_nodial : bool;    (* network.WithNoDial *)
+  t_onconn : bool;    (* Conn.NewStream called directly on a connection (no retry loop) *)
   t_ctx : bool;       (* the call's context is done (cancelled or timed out) *)
   t_dials : nat;      (* numDials *)
   t_pc : pc }.
 
 Definition with_pc (t : thread) (p : pc) : thread :=
-  mkThread (t_dial t) (t_allow t) (t_force t) (t_nodial t) (t_ctx t) (t_dials t) p.
+  mkThread (t_dial t) (t_allow t) (t_force t) (t_nodial t) (t_onconn t) (t_ctx t) (t_dials t) p.
 Definition with_ctx (t : thread) : thread :=
-  mkThread (t_dial t) (t_allow t) (t_force t) (t_nodial t) true (t_dials t) (t_pc t).
+  mkThread (t_dial t) (t_allow t) (t_force t) (t_nodial t) (t_onconn t) true (t_dials t) (t_pc t).
 Definition with_dials (t : thread) (n : nat) : thread :=
-  mkThread (t_dial t) (t_allow t) (t_force t) (t_nodial t) (t_ctx t) n (t_pc t).
+  mkThread (t_dial t) (t_allow t) (t_force t) (t_nodial t) (t_onconn t) (t_ctx t) n (t_pc t).
 
 (* ---- dial worker ---------------------------------------------------------------- *)
 Inductive dstat := DPending | DConn (c : nat) | DErr.
@@ -383,6 +385,7 @@ Definition thread_step (s : state) (tid : nat) : option state :=
         else go (POpening c)
     | POpening _ => None
     | POpenFailed c =>
+        (* Swarm.NewStream: if c.conn.IsClosed() { continue } *)
         if c_closed (get_conn (conns s) c) then go PLoop else go (PDone (RErr E_OPEN))
     | PDone _ => None
     end
@@ -408,6 +411,7 @@ Inductive action :=
 | AMark (c : nat)                     (* the transport conn becomes closed (IsClosed() = true) *)
 | AReap (c : nat)                     (* Conn.Close: removeConn, streams.m = nil, transport closed *)
 | AStart (dial allow force nodial : bool)
+| AStartOn (c : nat) (allow : bool)   (* Conn.NewStream called directly on conn c *)
 | ACtx (tid : nat)                    (* the call's context is cancelled / its deadline passes *)
 | AOpenRes (tid : nat) (ok : bool)    (* the transport's OpenStream returns *)
 | AAddrs (l : list addr)              (* the peerstore's addresses of the peer change *)
@@ -441,7 +445,11 @@ Definition step_raw (s : state) (a : action) : option state :=
       else None
   | AStart dial allow force nodial =>
       Some (set_threads s (threads s ++
-              [mkThread dial allow force nodial false 0 (if dial then PDialStart else PLoop)]))
+              [mkThread dial allow force nodial false false 0 (if dial then PDialStart else PLoop)]))
+  | AStartOn c allow =>
+      if Nat.ltb c (length (conns s))
+      then Some (set_threads s (threads s ++ [mkThread false allow false true true false 0 (POpen c)]))
+      else None
   | ACtx tid =>
       match nth_error (threads s) tid with
       | Some t => Some (set_thread s tid (with_ctx t))
@@ -457,6 +465,9 @@ Definition step_raw (s : state) (a : action) : option state :=
                 (* addStream: c.streams.m != nil *)
                 Some (set_conn (set_thread s tid (with_pc t (PDone (ROk c)))) c
                         (mkConn (c_lim x) (c_proxy x) (c_closed x) (c_listed x) (S (c_streams x))))
+              else if t_onconn t then
+                (* a direct Conn.NewStream has no retry loop: it returns the error *)
+                Some (set_thread s tid (with_pc t (PDone (RErr (if ok then E_CLOSED else E_OPEN)))))
               else Some (set_thread s tid (with_pc t (POpenFailed c)))
           | _ => None
           end
